@@ -276,6 +276,25 @@ def parseFuel (T : Table) (fuel : Nat) (ts : List LTok) : PRes Expr :=
 
 def parse (T : Table) (ts : List LTok) : PRes Expr := parseFuel T (2 * ts.length + 4) ts
 
+/-- `ParseWithRuntime` for a program of expression statements separated by line ends
+    (`hasMoreStatements`: the next token is on a later line than the statement's root token);
+    `;` is outside the fragment. One statement: `[e]` exactly when `parse` gives `e`. -/
+def parseProgram (T : Table) : Nat → List LTok → PRes (List Expr)
+  | 0, _ => .error .fuel
+  | n+1, ts =>
+    match run T (2 * ts.length + 4) 0 ts with
+    | .ok (e, ln, rest) =>
+      (match rest with
+       | [] => .error .ended
+       | t :: _ =>
+         if t.tk = .eof then .ok [e]
+         else if ln < t.line then
+           (match parseProgram T n rest with
+            | .ok es => .ok (e :: es)
+            | .error x => .error x)
+         else .error .unexpected)
+    | .error x => .error x
+
 end Impl
 
 /-! ## Relational form of the loop (successful parses, token kinds only) -/
@@ -467,6 +486,11 @@ structure Num (N : Type) where
   ofInt : Int → N
   /-- `fmt.Sprint(x)` -/
   text : N → Str
+  /-- x is finite and its truncation lies in the int64 range (where `int64(x)` is defined by Go) -/
+  inInt64 : N → Bool
+  /-- the remainder of the truncated operands computed without the int64 detour (`none`: an operand
+      is NaN / infinite, or the divisor truncates to 0): what `%` means outside the int64 range -/
+  wideMod : N → N → Option N
 
 /-- what evaluation needs besides the tree -/
 structure Cfg (N : Type) where
@@ -531,10 +555,12 @@ inductive ErrKind where
   | runtime
   deriving DecidableEq, Repr
 
-/-- result of an evaluation: a value, or an error kind with the operand it names -/
+/-- result of an evaluation: a value, or an error: its kind, the text of the operand it names
+    (`Detail`) and the operand it is attached to (`RuntimeError.Node`): `some i` = child `i` of
+    the operator that raised it, `none` = the operator itself -/
 inductive Out (N : Type) where
   | val (v : Val N)
-  | err (k : ErrKind) (name : Str)
+  | err (k : ErrKind) (name : Str) (node : Option Nat)
 
 /-- the text of the operand's token: what `errorDetailString` names (for identifiers it
     appends `=value`; the comparison cuts that off) -/
@@ -549,6 +575,37 @@ def opName : Expr → Str
   | .bin _ t _ _ => t
   | .pre _ t _ => t
 
+mutual
+/-- an assignment somewhere in the tree (evaluation then has an effect: outside the fragment;
+    at the root it is handled by the driver: the value of the right side is bound) -/
+def hasAssign : Expr → Bool
+  | .atom _ => false
+  | .list its => hasAssignItems its
+  | .bin .assign _ _ _ => true
+  | .bin _ _ l r => hasAssign l || hasAssign r
+  | .pre _ _ x => hasAssign x
+def hasAssignItems : Items → Bool
+  | .nil => false
+  | .cons e rest => hasAssign e || hasAssignItems rest
+end
+
+/-- The one place where the code deviates from "the error is attached to the operand it names"
+    (known finding `error-node-left-operand`): `boolOp` and `listOp` attach the error about
+    their RIGHT operand to their LEFT child. -/
+def quirkNode : ErrKind → Option Nat → Option Nat
+  | .notABoolean, some 1 => some 0
+  | .notAList, some 1 => some 0
+  | _, p => p
+
+def Out.quirk {N : Type} : Out N → Out N
+  | .val v => .val v
+  | .err k s p => .err k s (quirkNode k p)
+
+/-- what an outcome is apart from the node an error is attached to -/
+def Out.core {N : Type} : Out N → Out N
+  | .err k s _ => .err k s none
+  | o => o
+
 /-! ## Impl: evaluation as the interpreter does it -/
 
 namespace Impl
@@ -556,72 +613,72 @@ variable {N : Type}
 
 /-- `numVal` -/
 def numVal (f : N → Val N) (n : Str) : Out N → Out N
-  | .err k s => .err k s
+  | .err k s p => .err k s p
   | .val (.num a) => .val (f a)
-  | .val _ => .err .notANumber n
+  | .val _ => .err .notANumber n (some 0)
 
 /-- `boolVal` -/
 def boolVal (f : Bool → Val N) (n : Str) : Out N → Out N
-  | .err k s => .err k s
+  | .err k s p => .err k s p
   | .val (.bool a) => .val (f a)
-  | .val _ => .err .notABoolean n
+  | .val _ => .err .notABoolean n (some 0)
 
 /-- `numOp`: both operands are evaluated (left error first), then the left one is
     checked, then the right one. `f` may itself fail (`%`). -/
 def numOp (f : N → N → Out N) (n1 n2 : Str) : Out N → Out N → Out N
-  | .err k s, _ => .err k s
-  | .val _, .err k s => .err k s
+  | .err k s p, _ => .err k s p
+  | .val _, .err k s p => .err k s p
   | .val (.num a), .val (.num b) => f a b
-  | .val (.num _), .val _ => .err .notANumber n2
-  | .val _, .val _ => .err .notANumber n1
+  | .val (.num _), .val _ => .err .notANumber n2 (some 1)
+  | .val _, .val _ => .err .notANumber n1 (some 0)
 
 /-- `genOp` -/
 def genOp (f : Val N → Val N → Val N) : Out N → Out N → Out N
-  | .err k s, _ => .err k s
-  | .val _, .err k s => .err k s
+  | .err k s p, _ => .err k s p
+  | .val _, .err k s p => .err k s p
   | .val a, .val b => .val (f a b)
 
 /-- `strOp`: the operands' `fmt.Sprint` forms -/
 def strOp (C : Num N) (f : Str → Str → Val N) : Out N → Out N → Out N
-  | .err k s, _ => .err k s
-  | .val _, .err k s => .err k s
+  | .err k s p, _ => .err k s p
+  | .val _, .err k s p => .err k s p
   | .val a, .val b => .val (f (a.text C) (b.text C))
 
 /-- `boolOp`: no short circuit — both operands are evaluated and checked -/
 def boolOp (f : Bool → Bool → Val N) (n1 n2 : Str) : Out N → Out N → Out N
-  | .err k s, _ => .err k s
-  | .val _, .err k s => .err k s
+  | .err k s p, _ => .err k s p
+  | .val _, .err k s p => .err k s p
   | .val (.bool a), .val (.bool b) => .val (f a b)
-  | .val (.bool _), .val _ => .err .notABoolean n2
-  | .val _, .val _ => .err .notABoolean n1
+  | .val (.bool _), .val _ => .err .notABoolean n2 (some 0)   -- names operand 1, attached to child 0 (as the code does)
+  | .val _, .val _ => .err .notABoolean n1 (some 0)
 
 /-- `listOp` -/
 def listOp (f : Val N → Vals N → Val N) (n2 : Str) : Out N → Out N → Out N
-  | .err k s, _ => .err k s
-  | .val _, .err k s => .err k s
+  | .err k s p, _ => .err k s p
+  | .val _, .err k s p => .err k s p
   | .val a, .val (.list vs) => .val (f a vs)
-  | .val _, .val _ => .err .notAList n2
+  | .val _, .val _ => .err .notAList n2 (some 0)   -- names operand 1, attached to child 0 (as the code does)
 
 /-- comparison operators: `numOp`, and on ANY error of it `strOp` on the same operands
     (the interpreter evaluates them again; evaluation in this fragment has no effects,
     so the outcomes are the same) -/
 def cmpOp (C : Num N) (fn : N → N → Bool) (fs : Str → Str → Bool) (n1 n2 : Str) (o1 o2 : Out N) : Out N :=
   match numOp (fun a b => .val (.bool (fn a b))) n1 n2 o1 o2 with
-  | .err _ _ => strOp C (fun a b => .bool (fs a b)) o1 o2
+  | .err _ _ _ => strOp C (fun a b => .bool (fs a b)) o1 o2
   | r => r
 
 /-- `likeOpRuntime.Eval` (after fix 203c4cc): subject, then pattern, then compile -/
 def likeOp (G : Cfg N) : Out N → Out N → Out N
-  | .err k s, _ => .err k s
-  | .val _, .err k s => .err k s
+  | .err k s p, _ => .err k s p
+  | .val _, .err k s p => .err k s p
   | .val a, .val b =>
     match G.re (a.text G.C) (b.text G.C) with
     | some r => .val (.bool r)
-    | none => .err .runtime []
+    | none => .err .runtime [] (some 1)
 
 /-- `modintOpRuntime`: zero (after truncation) divisor is a runtime error (fix ee44ab4) -/
 def modOp (C : Num N) (a b : N) : Out N :=
-  if C.toInt b = 0 then .err .runtime []
+  if C.toInt b = 0 then .err .runtime [] none
   else .val (.num (C.ofInt (Int.tmod (C.toInt a) (C.toInt b))))
 
 def binOp (G : Cfg N) (o : BinOp) (n1 n2 : Str) (o1 o2 : Out N) : Out N :=
@@ -673,15 +730,15 @@ def eval (G : Cfg N) : Expr → Out N
   | .list its =>
     (match evalItems G its with
      | .ok vs => .val (.list vs)
-     | .error (k, s) => .err k s)
+     | .error (k, s, p) => .err k s p)
   | .bin o _ l r => binOp G o (opName l) (opName r) (eval G l) (eval G r)
   | .pre p _ x => preOp G.C p (opName x) (eval G x)
 /-- `listValueRuntime.Eval`: left to right, the first error ends it -/
-def evalItems (G : Cfg N) : Items → Except (ErrKind × Str) (Vals N)
+def evalItems (G : Cfg N) : Items → Except (ErrKind × Str × Option Nat) (Vals N)
   | .nil => .ok .nil
   | .cons e rest =>
     match eval G e with
-    | .err k s => .error (k, s)
+    | .err k s p => .error (k, s, p)
     | .val v =>
       (match evalItems G rest with
        | .ok vs => .ok (.cons v vs)
@@ -699,8 +756,8 @@ variable {N : Type}
     not a number -/
 def arith (f : N → N → Out N) (n1 n2 : Str) : Val N → Val N → Out N
   | .num a, .num b => f a b
-  | .num _, _ => .err .notANumber n2
-  | _, _ => .err .notANumber n1
+  | .num _, _ => .err .notANumber n2 (some 1)
+  | _, _ => .err .notANumber n1 (some 0)
 
 /-- comparison: numeric on two numbers, otherwise lexical on the printed forms -/
 def compare (C : Num N) (fn : N → N → Bool) (fs : Str → Str → Bool) : Val N → Val N → Out N
@@ -709,12 +766,12 @@ def compare (C : Num N) (fn : N → N → Bool) (fs : Str → Str → Bool) : Va
 
 def logic (f : Bool → Bool → Bool) (n1 n2 : Str) : Val N → Val N → Out N
   | .bool a, .bool b => .val (.bool (f a b))
-  | .bool _, _ => .err .notABoolean n2
-  | _, _ => .err .notABoolean n1
+  | .bool _, _ => .err .notABoolean n2 (some 1)
+  | _, _ => .err .notABoolean n1 (some 0)
 
 def member (C : Num N) (neg : Bool) (n2 : Str) : Val N → Val N → Out N
   | a, .list vs => .val (.bool (neg != Vals.has C a vs))
-  | _, _ => .err .notAList n2
+  | _, _ => .err .notAList n2 (some 1)
 
 /-- the meaning of `v1 o v2` for operand VALUES (`n1`, `n2`: how the operands are named) -/
 def binSem (G : Cfg N) (o : BinOp) (n1 n2 : Str) (v1 v2 : Val N) : Out N :=
@@ -727,9 +784,16 @@ def binSem (G : Cfg N) (o : BinOp) (n1 n2 : Str) (v1 v2 : Val N) : Out N :=
   -- `//` : floor of the quotient
   | .divint => arith (fun a b => .val (.num (C.floor (C.div a b)))) n1 n2 v1 v2
   -- `%` : remainder of the operands truncated to integers; a zero divisor is an error
+  -- `%` : remainder of the operands truncated to integers; a zero divisor is an error. Inside the
+  -- int64 range this is `Int.tmod` on `int64(x)`; outside it the code's result is whatever the
+  -- platform's conversion gives (known finding `mod-out-of-int64-range`), the reference is `wideMod`
   | .modint => arith (fun a b =>
-      if C.toInt b = 0 then .err .runtime []
-      else .val (.num (C.ofInt (Int.tmod (C.toInt a) (C.toInt b))))) n1 n2 v1 v2
+      if C.inInt64 a && C.inInt64 b then
+        (if C.toInt b = 0 then .err .runtime [] none
+         else .val (.num (C.ofInt (Int.tmod (C.toInt a) (C.toInt b)))))
+      else match C.wideMod a b with
+        | some r => .val (.num r)
+        | none => .err .runtime [] none) n1 n2 v1 v2
   | .geq => compare C (fun a b => C.le b a) (fun a b => !strLt a b) v1 v2
   | .gt => compare C (fun a b => C.lt b a) (fun a b => strLt b a) v1 v2
   | .leq => compare C (fun a b => C.le a b) (fun a b => !strLt b a) v1 v2
@@ -741,7 +805,7 @@ def binSem (G : Cfg N) (o : BinOp) (n1 n2 : Str) (v1 v2 : Val N) : Out N :=
   | .like =>
     (match G.re (v1.text C) (v2.text C) with
      | some r => .val (.bool r)
-     | none => .err .runtime [])
+     | none => .err .runtime [] (some 1))
   | .hasprefix => .val (.bool ((v2.text C).isPrefixOf (v1.text C)))
   | .hassuffix => .val (.bool ((v2.text C).isSuffixOf (v1.text C)))
   | .isin => member C false n2 v1 v2
@@ -754,8 +818,8 @@ def preSem (C : Num N) (p : PreOp) (n : Str) : Val N → Out N
     | .neg, .num a => .val (.num (C.neg a))
     | .pos, .num a => .val (.num a)
     | .not, .bool b => .val (.bool (!b))
-    | .not, _ => .err .notABoolean n
-    | _, _ => .err .notANumber n
+    | .not, _ => .err .notABoolean n (some 0)
+    | _, _ => .err .notANumber n (some 0)
 
 mutual
 /-- operands are evaluated left to right, an error of an operand is the result (every
@@ -765,27 +829,44 @@ def eval (G : Cfg N) : Expr → Out N
   | .list its =>
     (match evalItems G its with
      | .ok vs => .val (.list vs)
-     | .error (k, s) => .err k s)
+     | .error (k, s, p) => .err k s p)
   | .bin o _ l r =>
     (match eval G l with
-     | .err k s => .err k s
+     | .err k s p => .err k s p
      | .val v1 =>
        (match eval G r with
-        | .err k s => .err k s
+        | .err k s p => .err k s p
         | .val v2 => binSem G o (opName l) (opName r) v1 v2))
   | .pre p _ x =>
     (match eval G x with
-     | .err k s => .err k s
+     | .err k s p => .err k s p
      | .val v => preSem G.C p (opName x) v)
-def evalItems (G : Cfg N) : Items → Except (ErrKind × Str) (Vals N)
+def evalItems (G : Cfg N) : Items → Except (ErrKind × Str × Option Nat) (Vals N)
   | .nil => .ok .nil
   | .cons e rest =>
     match eval G e with
-    | .err k s => .error (k, s)
+    | .err k s p => .error (k, s, p)
     | .val v =>
       (match evalItems G rest with
        | .ok vs => .ok (.cons v vs)
        | .error x => .error x)
+end
+
+mutual
+/-- every `%` in the tree is applied (per the reference evaluation) to operands inside the int64
+    range, or to operands that are not both numbers -/
+def modInRange (G : Cfg N) : Expr → Bool
+  | .atom _ => true
+  | .list its => modInRangeItems G its
+  | .bin o _ l r =>
+    modInRange G l && modInRange G r &&
+    (match o, eval G l, eval G r with
+     | .modint, .val (.num a), .val (.num b) => G.C.inInt64 a && G.C.inInt64 b
+     | _, _, _ => true)
+  | .pre _ _ x => modInRange G x
+def modInRangeItems (G : Cfg N) : Items → Bool
+  | .nil => true
+  | .cons e rest => modInRange G e && modInRangeItems G rest
 end
 
 end Spec
